@@ -1,8 +1,10 @@
 """C03 - secrets are stored only encrypted and decrypt with the configuration's key file.
 Decided on spec/PersistMachine.tla: C03_KeyIsNearest, C03_NoPlaintext; the conformance step
 identifies the key that encrypted every ciphertext, the key files opened and plaintext leaks."""
-from . import persist
+from . import cfgmachine, persist, persistk
 
 
 def run(tier, seed):
-    return persist.run_persist("C03", ["C03_KeyIsNearest"], ["C03_NoPlaintext", "C02_Reproduces"], tier, seed)
+    out = persist.run_persist("C03", ["C03_KeyIsNearest"], ["C03_NoPlaintext", "C02_Reproduces"], tier, seed)
+    # every placement of key files over three nested config types and the root (see persistk.py)
+    return cfgmachine.merge(out, persistk.run_keyfamily("C03", ["C03_KeyIsNearest"], ["C03_NoPlaintext", "C02_Reproduces"], tier, seed))
